@@ -730,6 +730,10 @@ def free_names(func):
     for n in ast.walk(func):
         if isinstance(n, (ast.FunctionDef, ast.AsyncFunctionDef, ast.Lambda)) and n is not func:
             bound |= params_of(n)
+            if hasattr(n, "name"):
+                bound.add(n.name)
+        elif isinstance(n, ast.ClassDef):
+            bound.add(n.name)
         elif isinstance(n, ast.comprehension):
             bound |= {x.id for x in ast.walk(n.target) if isinstance(x, ast.Name)}
         elif isinstance(n, (ast.Import, ast.ImportFrom)):
